@@ -39,7 +39,10 @@ type rsaKey struct {
 var (
 	keysOnce sync.Once
 	keysErr  error
-	rsaKeys  []*rsaKey // [0],[1] are configured in gates; [2] is never configured
+	// [0],[1] are configured in the gates of every family; [2] is never configured
+	// anywhere; [3] is configured only by the families with several gates / route
+	// groups (groups_test.go), never by the single-gate families
+	rsaKeys []*rsaKey
 )
 
 func scratchDir() string {
@@ -57,7 +60,7 @@ func setupKeys() error {
 			keysErr = err
 			return
 		}
-		for i, fp := range []string{"fp-alpha", "FP-Beta/2", "fp-unconfigured"} {
+		for i, fp := range []string{"fp-alpha", "FP-Beta/2", "fp-unconfigured", "fp.gamma-3"} {
 			priv, err := rsa.GenerateKey(rand.Reader, 1024)
 			if err != nil {
 				keysErr = err
@@ -70,7 +73,7 @@ func setupKeys() error {
 				return
 			}
 			k := &rsaKey{Fingerprint: fp, File: file, priv: priv}
-			if i < 2 {
+			if i != 2 {
 				if k.dec, err = codec.NewRsaDecrypter(file); err != nil {
 					keysErr = err
 					return
